@@ -104,6 +104,19 @@ CLAIMED["C16"] = dict(
         "on every answer.",
    note=TB + "sqlglot's executor evaluates the catalog SELECTs and its parser decides which SHOW spellings exist (SHOW COLUMNS IN is not parsed). A depth-2 mapping lives in a database named ''. Known finding D16c (empty databases / tables are not listed); defect D16b (dict_depth) found and fixed while building this check.",
    design="DESIGN.md section 4, C16")
+CLAIMED["C08"] = dict(
+   technique="Lean 4 proof (projection theorem for interleaved runs of any per-connection step function, instantiated with the whole per-connection model; kernel-evaluated audit of the extracted inventory of shared mutable state) + differential execution: interleaved vs alone, and vs the model's per-connection transcript",
+   text="Theorems in lean/MimicProps/C08.lean: projection_eq_solo - for every per-connection step function, family of initial states and interleaving, "
+        "connection i's transcript and final state equal those of its own events run alone; others_invisible / interleaving_irrelevant; the instance for the "
+        "driver's step over Mimic.Drv.St (framing, sequence ids, variables, prepared statements, cursors, character sets); shared_state_audit - the extracted "
+        "inventory of module-level / class-level mutable objects, of stores into them and of attribute stores of objects shared between connections equals "
+        "the reviewed one (constant tables never written, one pure memo, the context variable, the registry). Tie: extraction over the whole package + K in "
+        "{2,3,4} real connections with programs of SET / SET NAMES / reads / SHOW VARIABLES / prepare / execute / fetch / reset / close / COM_INIT_DB / "
+        "queries completing later / text results over suspending row sources, packets interleaved at event-loop-iteration granularity, in-flight calls "
+        "released in random order, transports pausing; overlapping handshakes on shared plugin objects. Oracle: byte-exact output of every connection = output "
+        "of the same program alone on a fresh server; correspondence: every response = the model's @i transcript.",
+   note=TB + "Each connection has its own application session object. Granularity is the event-loop iteration (asyncio has no preemption inside one). KILLs are C09's subject.",
+   design="DESIGN.md section 4, C08")
 CLAIMED["C05"] = dict(
    technique="Lean 4 proof (round-trip theorems for NULL bitmap, binary rows of all encoder classes, text framing, decimal text, durations; row-preservation of inference) + extracted encoder tables + byte-for-byte differential execution",
    text="Theorems in lean/MimicProps/C05.lean: NULL-bitmap round trip for every size/offset/pattern; binary rows of well-formed values of every supported "
